@@ -7,12 +7,12 @@ namespace Rooc.Drv.C06
 open Rooc Sexp Rooc.Pre
 
 def decInts (xs : List Sexp) : Option (List Int) :=
-  optAll (xs.map fun | .atom s => decInt s | _ => none)
+  optAll (xs.map fun | .atom s => decIntStr s | _ => none)
 def encInt (i : Int) : Sexp := .atom (toString i)
 def encNatRow (r : List Int) : Sexp := .list (r.map encInt)
 
 partial def decTree : Sexp → Option (Tree Int)
-  | .list [.atom "leaf", .atom s] => (decInt s).map .leaf
+  | .list [.atom "leaf", .atom s] => (decIntStr s).map .leaf
   | .list (.atom "node" :: cs) => (optAll (cs.map decTree)).map .node
   | _ => none
 partial def encTree : Tree Int → Sexp
@@ -22,7 +22,7 @@ partial def encTree : Tree Int → Sexp
 /-- one printed index fragment; `none` = `WrongExpectedArgument` -/
 def decFrag : Sexp → Option (Option String)
   | .list [.atom "numtext", .str s] => some (some s)
-  | .list [.atom "int", .atom s] => (decInt s).map (fun i => some (toString i))
+  | .list [.atom "int", .atom s] => (decIntStr s).map (fun i => some (toString i))
   | .list [.atom "pint", .atom s] => s.toNat?.map (fun n => some (toString n))
   | .list [.atom "bool", .atom "true"] => some (some "T")
   | .list [.atom "bool", .atom "false"] => some (some "F")
@@ -66,7 +66,7 @@ def handleF : List Sexp → Sexp
     | some k, some xs => (match aggregate k xs with | some e => app "ok" [e.enc] | none => app "err" [.atom "Unexpected", .atom "token"])
     | _, _ => app "err" [.atom "decode"]
   | [.atom "range", .atom lo, .atom hi, .atom inc] =>
-    match decInt lo, decInt hi with
+    match decIntStr lo, decIntStr hi with
     | some lo, some hi => app "ok" ((rangeVals lo hi (inc == "true")).map (fun i => .list [encInt i]))
     | _, _ => app "err" [.atom "decode"]
   | [.atom "enumerate", .list xs] =>
@@ -127,6 +127,14 @@ def handleF : List Sexp → Sexp
       let r := match f with | "union" => svalUnion a b | "intersection" => svalInter a b | _ => svalDiff a b
       app "ok" (r.map (fun v => .str (svalText v)))
     | _, _ => app "err" [.atom "decode"]
+  | [.atom "transformprog", p] =>
+    match ProgM.dec p with
+    | some p => (match (transformProg p : Except IErr (Model Float)) with | .ok m => app "ok" [m.enc] | .error _ => app "err" [])
+    | none => app "err" [.atom "decode"]
+  | [.atom "unrollprogtext", p] =>
+    match ProgM.dec p with
+    | some p => if !p.arityOk then app "err" [] else (match unrollProg p with | .ok u => app "ok" [.str u.text] | .error _ => app "err" [])
+    | none => app "err" [.atom "decode"]
   | [.atom "expandme", e] =>
     match ME.dec e with
     | some e => (match (expandChecked e : Except IErr (Exp Float)) with | .ok x => app "ok" [x.enc] | .error _ => app "err" [])
